@@ -65,7 +65,7 @@ def gen_scenario(rng, n_gc=None, n_veh=None, features=None, steps=None, interval
             ev["local_generation"]["pv%d" % (g + 1)] = {
                 "start_time": iso(start), "step_duration_s": interval * 60, "grid_connector_id": gid,
                 "values": [round(max(0, rng.uniform(-5, gc["max_power"] * 0.7)), 2) for _ in range(n)]}
-            comp["photovoltaics"]["pv%d" % (g + 1)] = {"parent": gid, "nominal_power": rng.choice([5, 30, 120])}
+            comp["photovoltaics"]["pv%d" % (g + 1)] = {"parent": gid, "nominal_power": rng.choice([5, 30, 95])}
         if "battery" in feats and rng.random() < 0.8:
             P = rng.choice([10, 50])
             b = {"parent": gid, "charging_curve": gen_curve(rng, P), "capacity": rng.choice([50, 100, -1]),
